@@ -338,6 +338,9 @@ func cmdCheck(args []string) {
 		if hs.MaxWallS > 0 {
 			ex.maxWall = time.Duration(hs.MaxWallS) * time.Second
 		}
+		if v, err := strconv.Atoi(os.Getenv("VP_MAXWALL_S")); err == nil && v > 0 {
+			ex.maxWall = time.Duration(v) * time.Second // calibration runs
+		}
 		st := ex.Run()
 		results = append(results, hres{hs, st})
 		fmt.Printf("  %-28s paths=%d %v decisions=%d queries(sat/unsat/unk)=%d/%d/%d solver=%.1fs wall=%.1fs\n",
